@@ -17,8 +17,40 @@ SHARED = [
 ]
 
 
+def _camel(s):
+    return "".join(w.capitalize() for w in s.split("_"))
+
+
+def _pynumeric():
+    """one tiny Props module per Python source file (Props/PyNum<File>.lean: "this file never rounds / narrows /
+    formats with limited digits"); a property gets the modules of the files it is anchored in (properties.jsonl)"""
+    import json, os
+    root = os.path.dirname(os.path.dirname(os.path.abspath(__file__)))
+    per_file = {}
+    for line in open(os.path.join(root, "properties.jsonl"), encoding="utf-8"):
+        p = json.loads(line)
+        for f in p["anchors"]["files"]:
+            if f.startswith("src/strengths/") and f.endswith(".py") and "/" not in f[len("src/strengths/"):]:
+                per_file.setdefault(f[len("src/strengths/"):-3], []).append(p["id"])
+    out = []
+    for f, props in sorted(per_file.items()):
+        mod = "PyNum" + _camel(f)
+        if os.path.exists(os.path.join(root, "lean", "Strengths", "Props", mod + ".lean")):
+            out.append({"target": "Strengths.Props." + mod, "file": "Strengths/Props/%s.lean" % mod, "groups": ["PyNumeric"],
+                        "props": props, "trusted": None})
+    return out
+
+
+PYNUMERIC_TRUSTED = ("Props/PyNum*.lean are inventories (AST walk) of rounding / tolerance calls, dtype values, narrow type names, "
+                     "astype, limited-digit formats and floor divisions per anchored Python file; they show the package never narrows a "
+                     "number on purpose, not that float arithmetic is exact")
+
+
 def extend(mod, prop):
-    for s in SHARED:
+    pn = [s for s in _pynumeric() if prop in s["props"]]
+    if pn:
+        mod.TRUSTED = list(getattr(mod, "TRUSTED", [])) + [PYNUMERIC_TRUSTED]
+    for s in SHARED + pn:
         if prop in s["props"]:
             if s["target"] not in mod.LEAN_TARGETS:
                 mod.LEAN_TARGETS = list(mod.LEAN_TARGETS) + [s["target"]]
@@ -27,4 +59,5 @@ def extend(mod, prop):
             g = getattr(mod, "GEN_GROUPS", None)
             if g is not None:
                 mod.GEN_GROUPS = list(g) + [x for x in s["groups"] if x not in g]
-            mod.TRUSTED = list(getattr(mod, "TRUSTED", [])) + [s["trusted"]]
+            if s["trusted"]:
+                mod.TRUSTED = list(getattr(mod, "TRUSTED", [])) + [s["trusted"]]
